@@ -153,6 +153,7 @@ Proof.
       destruct found; [|exfalso; exact (err_at_not_ok _ _ _ _ H)].
       destruct g; [|discriminate]. cbv zeta in H.
       destruct (starts_with _ (b "NDATA")); [|discriminate].
+      destruct (negb (starts_with_space s1)); [exfalso; exact (err_at_not_ok _ _ _ _ H)|].
       apply bind_ok in H. destruct H as [s2 [_ H]]. apply bind_ok in H. destruct H as [s3 [_ H]].
       apply bind_ok in H. destruct H as [s4 [_ H]]. discriminate.
     + exfalso. exact (err_at_not_ok _ _ _ _ H).
